@@ -4,7 +4,7 @@
  * the built-in library models; native replay: they interpose libc for the calls made by the unit under test).
  *
  * Contract (part of the claim):
- *   fwrite(p, 1, n, fp)   fp must be the stream handed to vbi_export_stdio; reads the first min(n, 64) and the last byte
+ *   fwrite(p, 1, n, fp)   fp must be the stream handed to vbi_export_stdio; reads the first min(n, 16) and the last byte
  *                         of p (so the source must be that long); appends them to the log and returns n -- or, at the call selected
  *                         by the fault plan, appends only `fault_part' (< n) bytes and returns that (short write).
  *   write(fd, p, n)       fd must be the open descriptor; same as fwrite, faults: -1 (errno EIO), 0 (no progress,
@@ -18,7 +18,7 @@
 #include <stdint.h>
 #include <stddef.h>
 
-#define C16_LOG_MAX 64
+#define C16_LOG_MAX 16
 #define C16_FD 5
 #define C16_NCALLS 8          /* per-call records kept for the first C16_NCALLS write/fwrite calls */
 
@@ -39,7 +39,7 @@ struct c16_io {
   uint32_t n_write_calls, n_open, n_close, n_unlink, n_stat, n_clearerr;
   int fd_open;               /* 1 while C16_FD is open */
   int faulted;               /* a short count or an error was injected */
-  uint32_t n_zero;           /* number of calls that returned 0 (no progress) */
+  uint32_t n_zero;           /* number of write() calls that returned 0 for a non-empty request (no progress, not an error) */
   void *fp;                  /* the stream object handed to vbi_export_stdio */
 };
 extern struct c16_io C16IO;
